@@ -89,7 +89,21 @@ def run_and_check(ops):
     m = {}
     bad = None
     stats = {"shared": 0, "batch": 0}
+    rr = random.Random(int(C.case_key(ops)[:8], 16))
     for op in ops:
+        if m and rr.random() < 0.12:
+            # a call the API refuses (ill-typed value under a key that would split an existing node) is part of "modified only
+            # through its own API": it must leave the database exact (not part of the model's history: it has no effect)
+            k = rr.choice(sorted(m))
+            k2 = (k[:-1] + bytes([k[-1] ^ 0x01])) if k else b"\x05"
+            try:
+                t.set(k2, rr.choice([None, "text", 7]))
+                if bad is None:
+                    bad = "an ill-typed value was accepted"
+            except Exception as e:
+                if type(e).__name__ != "ValidationError" and bad is None:
+                    bad = f"an ill-typed value raised {type(e).__name__}"
+            stats["refused"] = stats.get("refused", 0) + 1
         out = HX.step(t, op, backing)
         outs.append(out)
         if op[0] in ("set", "del"):
